@@ -392,9 +392,22 @@ class Num:
                         c = int(m.k) + 1
                         q = self.atom(("div", x, c), lambda q: [le(q.scale(c), xa), le(xa, q.scale(c) + const(c - 1)), le(const(0), q)])
                         return xa - q.scale(c)
-                return self.atom(t, lambda r: ([le(r, a)] if a is not None else []) + ([le(r, b)] if b is not None else []))
+                tc = (t[0], "BitAnd") + tuple(sorted((t[2], t[3]), key=str))        # a & b and b & a are one quantity
+                return self.atom(tc, lambda r: ([le(r, a)] if a is not None else []) + ([le(r, b)] if b is not None else []) + [le(const(0), r)])
             if op in ("BitOr", "BitXor"):
-                return self.atom(t) if self.cfg.width(self.ty_of(t)) else None
+                if not self.cfg.width(self.ty_of(t)):
+                    return None
+                a, b = self.aff(t[2]), self.aff(t[3])
+                tc = (t[0], op) + tuple(sorted((t[2], t[3]), key=str))
+                if a is None or b is None or self.ty_of(t[2]) in ("bool",):
+                    return self.atom(tc)
+                # a + b = 2 (a & b) + (a ^ b) = (a & b) + (a | b) for non-negative integers
+                n = self.aff(("binop", "BitAnd", t[2], t[3]))
+                if n is None:
+                    return self.atom(tc)
+                if op == "BitXor":
+                    return self.atom(tc, lambda r: [le(const(0), r), le(n.scale(2) + r, a + b), le(a + b, n.scale(2) + r)])
+                return self.atom(tc, lambda r: [le(const(0), r), le(n + r, a + b), le(a + b, n + r)])
             if op in ("Lt", "Le", "Gt", "Ge", "Eq", "Ne"):
                 return None
             return None
@@ -1139,6 +1152,13 @@ class NumWalker(Walker):
                             e0 = num.aff(hv2[i][1]) + num.aff(hv2[j][1]).scale(sgn)
                             for kind in ("le", "ge"):
                                 cands.append(("pair", kind, e0, (hv2[i], hv2[j], sgn)))
+                            if sgn == -1:
+                                # an order between the two that holds at entry (left <= right of a shrinking interval)
+                                es = self.full_store(st)
+                                if lp.entails(num.close(es, [le(e0, const(0))]), le(e0, const(0))):
+                                    cands.append(("pair", "le", const(0), (hv2[i], hv2[j], sgn)))
+                                elif lp.entails(num.close(es, [le(const(0), e0)]), le(const(0), e0)):
+                                    cands.append(("pair", "ge", const(0), (hv2[i], hv2[j], sgn)))
 
         def cand_aff(c, p=None):
             """value of the candidate's left-hand side at the loop head (p None) or at the end of back path p"""
